@@ -4,13 +4,13 @@
 export GOFLAGS=-mod=mod GOPROXY=off GOSUMDB=off GOTOOLCHAIN=local
 WT=/tmp/wt-eval
 declare -A PROPS=( [rr-explicit-unlock-copy-delete]="C01 C02 C09 C11 C20" [rebalancer-simplify-branches]="C02 C10 C09" [bucket-min-builtin-added-tokens]="C03 C13" [tokenlimiter-extract-bucketset-helper]="C03 C14 C09 C20" [connlimit-explicit-unlock-local-copy]="C04 C09 C14 C20" [cbreaker-switch-to-if-chain]="C05 C12 C18 C09 C20" [counter-hoist-invariant-early-break]="C17 C18 C09" [ttlmap-loop-conditions-early-return]="C14 C09" )
-for d in /tmp/wt-REF/refactor/*/; do
+for d in /verif/refactorings/*/; do
   name=$(basename $d); [ -f $d/patch.diff ] || continue
   cd $WT && git checkout -q --detach main 2>/dev/null; git checkout -q -- . && git clean -fdq
   git apply $d/patch.diff || { echo "REFACTOR $name: patch does not apply"; continue; }
   for prop in ${PROPS[$name]}; do
     s=$(date +%s)
-    out=$(cd /verif && GOSYM_OUT=/tmp/eval-out timeout 1500 ./bin/gosym check -prop $prop -tier quick -repo $WT -workers 16 2>&1)
+    out=$(cd /verif && GOSYM_OUT=/tmp/eval-out-ref timeout 1500 ./bin/gosym check -prop $prop -tier quick -repo $WT -workers 16 2>&1)
     code=$?
     echo "REFACTOR $name prop=$prop exit=$code violations=$(echo "$out" | grep -a -c '^VIOLATION') incon=$(echo "$out" | grep -a -c '^INCONCLUSIVE') time=$(( $(date +%s)-s ))s :: $(echo "$out" | grep -a '^VIOLATION\|^INCONCLUSIVE' | head -2 | tr '\n' ' ' | cut -c1-300)"
   done
